@@ -354,7 +354,135 @@ func loadFactor() int {
 	return k
 }
 
+// solve discharges one obligation. When the goal as a whole is not decided in time and it is a conjunction
+// (one conjunct per return point, or `A && B` inside a clause), the conjuncts are tried one by one: all
+// `unsat` is a proof of the conjunction, one `sat` refutes it. Names and the baseline are unaffected.
 func solve(o *Obligation, dir string, timeoutS, seed int, wantModel bool, only []string) SolveResult {
+	res := solve1(o, dir, timeoutS, seed, wantModel, only)
+	if res.Answer == "unsat" || res.Answer == "sat" || o.ExpectSat {
+		return res
+	}
+	parts := splitGoal(o.Cond, 12)
+	if len(parts) < 2 {
+		return res
+	}
+	total := res.Seconds
+	by := map[string]int{}
+	for i, part := range parts {
+		po := *o
+		po.Name = fmt.Sprintf("%s.part%d", o.Name, i+1)
+		po.Cond = part
+		pr := solve1(&po, dir, timeoutS, seed, wantModel, only)
+		total += pr.Seconds
+		if os.Getenv("GOVC_DEBUG") != "" {
+			fmt.Printf("DEBUG split %s answer=%s solver=%s %.2fs\n", po.Name, pr.Answer, pr.Solver, pr.Seconds)
+		}
+		if pr.Answer == "sat" {
+			pr.Seconds = total
+			return pr
+		}
+		if pr.Answer != "unsat" {
+			return res
+		}
+		by[pr.Solver]++
+	}
+	best, bn := "", 0
+	for k, n := range by {
+		if n > bn || (n == bn && k < best) {
+			best, bn = k, n
+		}
+	}
+	res.Answer, res.Solver, res.Seconds, res.Raw = "unsat", best, total, fmt.Sprintf("unsat (goal split into %d conjuncts, each unsat)", len(parts))
+	res.Hint = ""
+	return res
+}
+
+// splitGoal splits `(and A B ...)` and `(=> R (and A B ...))` into conjuncts (recursively, at most max parts).
+func splitGoal(cond string, max int) []string {
+	cond = strings.TrimSpace(cond)
+	args := sexprArgs(cond)
+	if len(args) == 0 {
+		return []string{cond}
+	}
+	var out []string
+	switch args[0] {
+	case "and":
+		for _, a := range args[1:] {
+			out = append(out, splitGoal(a, max)...)
+		}
+	case "=>":
+		if len(args) != 3 {
+			return []string{cond}
+		}
+		inner := splitGoal(args[2], max)
+		if len(inner) < 2 {
+			return []string{cond}
+		}
+		for _, a := range inner {
+			out = append(out, "(=> "+args[1]+" "+a+")")
+		}
+	default:
+		return []string{cond}
+	}
+	if len(out) > max || len(out) < 2 {
+		return []string{cond}
+	}
+	return out
+}
+
+// sexprArgs returns the head symbol and the top-level arguments of an S-expression "(head a b ...)".
+func sexprArgs(s string) []string {
+	if len(s) < 2 || s[0] != '(' || s[len(s)-1] != ')' {
+		return nil
+	}
+	body := s[1 : len(s)-1]
+	var out []string
+	depth, start, inStr := 0, -1, false
+	flush := func(end int) {
+		if start >= 0 {
+			out = append(out, body[start:end])
+			start = -1
+		}
+	}
+	for i := 0; i < len(body); i++ {
+		c := body[i]
+		if inStr {
+			if c == '"' {
+				inStr = false
+			}
+			continue
+		}
+		switch {
+		case c == '"':
+			inStr = true
+			if start < 0 {
+				start = i
+			}
+		case c == '(':
+			if depth == 0 && start < 0 {
+				start = i
+			}
+			depth++
+		case c == ')':
+			depth--
+			if depth == 0 {
+				flush(i + 1)
+			}
+		case c == ' ' || c == '\n' || c == '\t':
+			if depth == 0 {
+				flush(i)
+			}
+		default:
+			if start < 0 {
+				start = i
+			}
+		}
+	}
+	flush(len(body))
+	return out
+}
+
+func solve1(o *Obligation, dir string, timeoutS, seed int, wantModel bool, only []string) SolveResult {
 	timeoutS *= loadFactor()
 	file := filepath.Join(dir, sanitize(o.Name)+".smt2")
 	if len(file) > 200 {
